@@ -87,6 +87,9 @@ func ittIndex(p *Process, params []string, cRecords chan []string, marshaller fu
 			}
 			mode = byRowNumber
 			num, _ := strconv.Atoi(params[i][1:])
+			if num < 1 {
+				return fmt.Errorf("invalid row `%s`: rows are counted from 1", params[i])
+			}
 			matchInt = append(matchInt, num-1) // Don't count from zero
 
 		case rxColumnPrefixOld.MatchString(params[i]):
